@@ -92,6 +92,16 @@ def safe_run(check, case):
                 "violations": [], "stats": {}, "keys": {}}
 
 
+def _fresh_objects():
+    """Shrink candidates are judged like a replay will be: with no library object left over from earlier
+    runs of this worker process (the per-process cache of dissimilarity objects is emptied)."""
+    try:
+        from . import world
+        world._DISSIM_CACHE.clear()
+    except Exception:  # noqa: BLE001
+        pass
+
+
 def _shrink(check, case, violation, budget_s, max_tries):
     """Greedy structural shrinking: keep a candidate only if the *same kind*
     of violation of this property still occurs."""
@@ -107,6 +117,7 @@ def _shrink(check, case, violation, budget_s, max_tries):
             if time.time() >= t_end or tries >= max_tries:
                 break
             tries += 1
+            _fresh_objects()
             res = safe_run(check, cand)
             if res.get("harness_error"):
                 continue
